@@ -1,7 +1,8 @@
 /-
 C17 — suggestions heal: certifying what is suggested makes vet pass.  The final de-duplication
-of suggestions loses criteria when two in-graph versions of a crate get the same proposed diff
-with different missing criteria (known finding C17/dedup-drops-criteria): witness below.
+of suggestions used to lose criteria when two in-graph versions of a crate got the same proposed
+diff with different missing criteria (C17/dedup-drops-criteria, fixed): since the fix only items
+that also agree on the criteria are merged; the former witness is `C17_fixed_dedup` below.
 Property theorems only; helper lemmas live in Vet/Lemmas/Suggest.lean.
 -/
 import Vet.Lemmas.Suggest
@@ -105,17 +106,27 @@ theorem C17_certify_criteria (fails : List (Nat × Failure)) (from_ : Option Nat
     simp only [Bool.and_eq_true, List.contains_iff_mem]
     exact ⟨h1, h2⟩
 
-/-- de-duplication only drops items; every dropped item has a surviving twin with the same crate
-and diff -/
+/-- de-duplication only drops items; every dropped item has a surviving twin with the same crate,
+the same diff and the same criteria -/
 theorem C17_dedup_keeps_twin (l : List Item) (x : Item) (hx : x ∈ l) :
-    ∃ y ∈ dedup l, sameSuggestion y x = true := by
-  cases l with
-  | nil => cases hx
-  | cons a rest => exact dedupFrom_twin rest a x hx
+    ∃ y ∈ dedup l, y.name = x.name ∧ y.from_ = x.from_ ∧ y.to = x.to ∧ y.criteria = x.criteria := by
+  have key : ∃ y ∈ dedup l, sameSuggestion y x = true := by
+    cases l with
+    | nil => cases hx
+    | cons a rest => exact dedupFrom_twin rest a x hx
+  obtain ⟨y, hy, hs⟩ := key
+  simp only [sameSuggestion, Bool.and_eq_true, decide_eq_true_eq] at hs
+  exact ⟨y, hy, hs.1.1.1, hs.1.1.2, hs.1.2, hs.2⟩
 
-/-- Known finding C17/dedup-drops-criteria (F9): two versions of one crate get the same proposed
-diff with different missing criteria; only the first criteria set survives -/
-theorem C17_counterexample_dedup :
-    dedup [⟨0, 5, none, 1, 1, 1⟩, ⟨1, 5, none, 1, 2, 1⟩] = [⟨0, 5, none, 1, 1, 1⟩] := by decide +kernel
+/-- Former finding C17/dedup-drops-criteria (F9), fixed: two versions of one crate get the same
+proposed diff with different missing criteria; both suggestions survive (before the fix only the
+first criteria set did) -/
+theorem C17_fixed_dedup :
+    dedup [⟨0, 5, none, 1, 1, 1⟩, ⟨1, 5, none, 1, 2, 1⟩] =
+      [⟨0, 5, none, 1, 1, 1⟩, ⟨1, 5, none, 1, 2, 1⟩] := by decide +kernel
+
+/-- and true duplicates are still merged -/
+example : dedup [⟨0, 5, none, 1, 1, 1⟩, ⟨1, 5, none, 1, 1, 1⟩] = [⟨0, 5, none, 1, 1, 1⟩] := by
+  decide +kernel
 
 end Vet
